@@ -9,7 +9,7 @@
 namespace orc {
 
 // ---- the callback family K_eq(T): each exists in double, long double and as an EQ reference
-static const int NCB = 6;
+static const int NCB = 8;   // 6 pure ones + 2 RE-ENTRANT ones: they call the library again (same handle, another point) before returning
 template <class S> static S keq(int k, S T) {
   using std::exp; using std::pow;
   switch (k) {
@@ -17,7 +17,8 @@ template <class S> static S keq(int k, S T) {
     case 1: return S(0.0625);
     case 2: return S(3) * pow(T, S(0.5)) * exp(-S(1.25) / T);      // Arrhenius-like
     case 3: return S(0.5) * pow(T, S(-0.75)) * exp(-S(0.5) / T);
-    case 4: return S(1) + S(0.25) * T + S(0.125) * T * T;          // positive polynomial
+    case 4: case 7: return S(1) + S(0.25) * T + S(0.125) * T * T;          // positive polynomial
+    case 6: return S(3) * pow(T, S(0.5)) * exp(-S(1.25) / T);
     default: return S(0.75) + S(0.5) * T * T;
   }
 }
@@ -27,7 +28,8 @@ static EQ keq_ref(int k, const EQ& T) {
     case 1: return EQ::c(0.0625);
     case 2: return 3.0 * pow(T, EQ::c(0.5)) * exp(-(EQ::c(1.25) / T));
     case 3: return 0.5 * pow(T, EQ::c(-0.75)) * exp(-(EQ::c(0.5) / T));
-    case 4: return 1.0 + 0.25 * T + 0.125 * T * T;
+    case 4: case 7: return 1.0 + 0.25 * T + 0.125 * T * T;
+    case 6: return 3.0 * pow(T, EQ::c(0.5)) * exp(-(EQ::c(1.25) / T));
     default: return 0.75 + 0.5 * T * T;
   }
 }
@@ -36,9 +38,17 @@ struct Rec { int calls = 0; long double lastT = 0; };
 static Rec g_rec;
 Rec chem_rec() { return g_rec; }
 void chem_rec_reset() { g_rec = Rec(); }
-template <class S, int K> static S cb(S T) { g_rec.calls++; g_rec.lastT = (long double)T; return keq<S>(K, T); }
-vh::FP<double> chem_cb_d(int k) { static vh::FP<double> t[NCB] = {cb<double, 0>, cb<double, 1>, cb<double, 2>, cb<double, 3>, cb<double, 4>, cb<double, 5>}; return t[k]; }
-vh::FP<long double> chem_cb_l(int k) { static vh::FP<long double> t[NCB] = {cb<long double, 0>, cb<long double, 1>, cb<long double, 2>, cb<long double, 3>, cb<long double, 4>, cb<long double, 5>}; return t[k]; }
+template <class S> static S plain_keq(S T) { return S(1.5) + T; }
+template <class S, int K> static S cb(S T) {
+  g_rec.calls++; g_rec.lastT = (long double)T;
+  // "for every such function": a user's K_eq may itself consult the library (the temperature at a reference station, another source term) -
+  // the outer evaluation must not be disturbed by the nested calls
+  if (K == 6) { volatile S t0 = MASA::masa_eval_exact_t<S>(S(0.3125)); (void)t0; volatile S r0 = MASA::masa_eval_exact_rho_N<S>(S(-1.25)); (void)r0; }
+  if (K == 7) { volatile S q0 = MASA::masa_eval_source_rho_u<S>(S(0.8125)); (void)q0; volatile S q1 = MASA::masa_eval_source_rho_N2<S>(S(-0.4375), plain_keq<S>); (void)q1; }
+  return keq<S>(K, T);
+}
+vh::FP<double> chem_cb_d(int k) { static vh::FP<double> t[NCB] = {cb<double, 0>, cb<double, 1>, cb<double, 2>, cb<double, 3>, cb<double, 4>, cb<double, 5>, cb<double, 6>, cb<double, 7>}; return t[k]; }
+vh::FP<long double> chem_cb_l(int k) { static vh::FP<long double> t[NCB] = {cb<long double, 0>, cb<long double, 1>, cb<long double, 2>, cb<long double, 3>, cb<long double, 4>, cb<long double, 5>, cb<long double, 6>, cb<long double, 7>}; return t[k]; }
 int chem_ncb() { return NCB; }
 static int g_sel = 0;
 void chem_select(Ctx&, int k) { g_sel = k; }
